@@ -259,6 +259,16 @@ theorem all_sites_wrapped :
       ("rewrite", "request", "wrapped")].all fun e =>
         Gen.logSites.any fun s => s.1 == e.1 && s.2.2.1 == e.2.1 && s.2.2.2 == e.2.2) = true := by decide
 
+/-- **sites elsewhere are known.** Outside modules/caddyhttp/… exactly one zap field in the whole module is
+    computed from a request / response / header: the admin endpoint's own "received request" log
+    (admin.go, logger `admin.api`, `zap.Reflect("headers", r.Header)`, not redacted).  That is the request log
+    of the ADMIN API — not one of the log kinds the property names (access logs, error logs and reverse-proxy
+    debug logs of the HTTP server) — so it is listed here explicitly rather than excused silently: any NEW
+    site anywhere in the module that logs request / response / header material changes the regenerated table
+    and breaks this theorem. -/
+theorem sites_elsewhere_are_known :
+    Gen.logSitesElsewhere = [("caddy", "ServeHTTP", "headers", "raw:net/http.Header")] := by decide
+
 /-! ## 3. field filters -/
 
 /-- **delete** emits nothing, for every field type -/
